@@ -115,9 +115,9 @@ class JEncoder(json.JSONEncoder):
 
 def _equals_default(default, value):
     """True if `value` (scalar, string, None or array) equals the field default."""
-    if hasattr(default, "to_nplike"):  # default of an array field
-        default = default.to_nplike()
     try:
+        if hasattr(default, "to_nplike"):  # default of an array field
+            default = default.to_nplike()
         default = np.asarray(default)
         value = np.asarray(value)
         return default.shape == value.shape and not np.any(default != value)
